@@ -1007,6 +1007,61 @@ async fn lts_case(log: &mut Log, st: &mut Stats, rng: &mut Rng, case_no: u64) {
     w.shutdown().await;
 }
 
+// ------------------------------------------------------------------ E-PURE: the allow-list check
+
+fn do_authz(log: &mut Log, st: &mut Stats, adv: &[u64], pid: u64, rem: &[u64]) {
+    let (ok, after) = ractor_cluster::node::node_session::verif_hooks::authorized_local_actor(adv, pid);
+    st.bump("authz");
+    st.bump(if ok { "authz_allowed" } else { "authz_rejected" });
+    let mut a = adv.to_vec();
+    a.sort_unstable();
+    a.dedup();
+    log.rec(format!("authz adv={} pid={pid} rem={}", show_pids(&a), show_pids(rem)), format!("{} adv={}", ok as u8, show_pids(&after)));
+}
+
+async fn authz_part(log: &mut Log, st: &mut Stats, rng: &mut Rng, cases: u64) {
+    let sh: Shared = Arc::new(Mutex::new(Vec::new()));
+    let mut cells = Vec::new();
+    let mut rem = Vec::new();
+    let mut plain = Vec::new();
+    for i in 0..4 {
+        if i % 2 == 0 {
+            let c = Actor::spawn(None, Probe(sh.clone()), ()).await.expect("probe").0.get_cell();
+            rem.push(c.get_id().pid());
+            cells.push(c);
+        } else {
+            let c = Actor::spawn(None, Plain(sh.clone()), ()).await.expect("plain").0.get_cell();
+            plain.push(c.get_id().pid());
+            cells.push(c);
+        }
+    }
+    // one remotable actor that has already exited
+    let dead = Actor::spawn(None, Probe(sh.clone()), ()).await.expect("probe").0.get_cell();
+    let dead_pid = dead.get_id().pid();
+    dead.stop(None);
+    quiesce().await;
+    let mut universe: Vec<u64> = rem.clone();
+    universe.extend(plain.iter().copied());
+    universe.push(dead_pid);
+    universe.push(999_999);
+    // every subset of the universe as allow-list x every pid
+    for mask in 0u32..(1 << universe.len()) {
+        let adv: Vec<u64> = universe.iter().enumerate().filter(|(i, _)| mask & (1 << i) != 0).map(|(_, p)| *p).collect();
+        for pid in &universe {
+            do_authz(log, st, &adv, *pid, &rem);
+        }
+    }
+    for _ in 0..cases {
+        let n = rng.below(4) as usize;
+        let adv: Vec<u64> = (0..n).map(|_| *rng.pick(&universe)).collect();
+        do_authz(log, st, &adv, *rng.pick(&universe), &rem);
+    }
+    for c in cells {
+        c.stop(None);
+    }
+    quiesce().await;
+}
+
 // ------------------------------------------------------------------ replay
 
 async fn replay_ops(log: &mut Log, st: &mut Stats, path: &str) {
@@ -1053,6 +1108,7 @@ async fn replay_ops(log: &mut Log, st: &mut Stats, path: &str) {
                 op_garbage(world.as_mut().unwrap(), log, st, k.parse().unwrap_or(0), &unhex(h).unwrap_or_default()).await
             }
             ["drop", k] if world.is_some() => op_drop(world.as_mut().unwrap(), log, st, k.parse().unwrap_or(0)).await,
+            ["authz", ..] => log.rec(line, "unsupported-in-replay: pids are not stable across runs"),
             _ => log.rec(line, "unsupported-in-replay"),
         }
     }
@@ -1073,6 +1129,7 @@ async fn run(args: Args) {
     }
     if args.u64("only-replay", 0) != 1 {
         fsm_part(&mut log, &mut st, &mut rng, cases);
+        authz_part(&mut log, &mut st, &mut rng, cases).await;
         for c in 0..cases {
             lts_case(&mut log, &mut st, &mut rng, c).await;
         }
